@@ -102,6 +102,18 @@ Theorem reorder_fetch_errors : forall (T R : Type) (fetchx : list T -> outcome R
 Proof. intros T R. exact reorder_fetch_errors_proof. Qed.
 Print Assumptions reorder_fetch_errors.
 
+(* Per-call contexts. Add(ctx, x) / Flush(ctx) take the caller's context; the code never consults it for the flush decision and only
+   hands it to FetchBatch. In the model the calls of the adder script carry a flag (true = already cancelled); the context layer is
+   a ghost over the SAME step functions (first conjunct), and every batch taken from the batcher gets exactly one context for its
+   fetch (second conjunct: none is dropped because of the caller's context). With reorder_fetch_errors: every input accepted by
+   Add is part of a batch that is fetched and whose outcome - results or reported error - fills its slot, in input order. *)
+Theorem context_never_drops : forall (T R : Type) (fetch : list T -> list R) (p : rparams)
+                                     (sc : list (aop T * bool)) (acts : list action),
+  let cs := c_run fetch p acts (c_init sc) in
+  rc cs = run fetch p acts (r_init (map fst sc)) /\ length (c_log cs) = length (flushed (rc cs)).
+Proof. intros T R. exact context_never_drops_proof. Qed.
+Print Assumptions context_never_drops.
+
 (* Quiescence is always reachable: in every reachable state that is not quiescent some goroutine can take a step
    (no deadlock between the flush mutex, the slots of the buffer and the buffer mutex; the consumer keeps receiving). *)
 Theorem reorder_no_deadlock : forall (T R : Type) (fetch : list T -> list R) (p : rparams),
